@@ -149,8 +149,12 @@ func ShrinkTape(tape []uint32, fails func([]uint32) bool, maxEvals int) ([]uint3
 	improved := true
 	for improved && evals < maxEvals {
 		improved = false
-		// delete blocks
-		for size := 16; size >= 1; size /= 2 {
+		// delete blocks, largest first (a long history collapses in a few steps)
+		start := 16
+		for start < len(best)/2 {
+			start *= 2
+		}
+		for size := start; size >= 1; size /= 2 {
 			for i := 0; i+size <= len(best) && evals < maxEvals; {
 				c := append(append([]uint32(nil), best[:i]...), best[i+size:]...)
 				if try(c) {
